@@ -139,7 +139,7 @@ fn check_roundtrip(block: &Block, receipts: &[Vec<Receipt>]) -> Result<(), Viola
     let bytes = ProtobufBlockConverter.convert_block(block, receipts).map_err(|e| viol("convert-error:block", format!("convert_block failed: {e}")))?;
     let proto = ProtoBlock::decode(&*bytes).map_err(|e| viol("convert-error:decode", format!("protobuf decode of the encoded block failed: {e}")))?;
     let (block2, receipts2) = fuel_block_from_protobuf(proto).map_err(|e| viol("convert-error:from-proto", format!("fuel_block_from_protobuf failed on a block produced by convert_block: {e}")))?;
-    if block.header() != block2.header() {
+    if block.header() != block2.header() || block.id() != block2.id() {
         let (p, a, b) = json_diff(&json!(block.header()), &json!(block2.header()), &mut vec![]).unwrap_or(("?".into(), "?".into(), "?".into()));
         return Err(viol(format!("roundtrip:header:{}", class_of(&p)), format!("header field {p}: original {a}, after the round trip {b}")));
     }
@@ -296,7 +296,7 @@ fn conversions(cli: &Cli, run: &mut Run) -> Vec<FoundViolation> {
     let sw = par_sweep(
         "conversions/pairwise",
         &format!(
-            "every pair of (factor, level) choices over {} factors / {} levels (transaction kind, two input kinds, two output kinds, two receipt kinds, all 64 policy subsets, numeric edge class {{distinct,0,1,MAX}}, byte-string length {{0,1,33}}, witness count, 32-byte id class, optional fields, storage slots, proof set, every PanicReason, script result, header edge class, number of transactions), each on top of {} base cases; oracle: block, transactions and receipts equal after convert_block -> protobuf bytes -> decode -> fuel_block_from_protobuf, and per transaction proto_tx_from_tx -> tx_from_proto_tx; non-trivial = the block carries at least one subject transaction; distinct by level vector",
+            "every pair of (factor, level) choices over {} factors / {} levels (transaction kind, two input kinds, two output kinds, two receipt kinds for the first and two for the second transaction, all 64 policy subsets, numeric edge class {{distinct,0,1,MAX}}, byte-string length {{0,1,33}}, witness count, 32-byte id class, optional fields, storage slots, proof set, every PanicReason, script result, header edge class, number of transactions), each on top of {} base cases; oracle: block, transactions and receipts equal after convert_block -> protobuf bytes -> decode -> fuel_block_from_protobuf, and per transaction proto_tx_from_tx -> tx_from_proto_tx; non-trivial = the block carries at least one subject transaction; distinct by level vector",
             factors.len(),
             n_levels,
             bases.len()
@@ -335,6 +335,31 @@ fn conversions(cli: &Cli, run: &mut Run) -> Vec<FoundViolation> {
         },
     );
     run.add_sweep(sw2);
+
+    // sweep 3: two transactions, every combination of their receipt lists
+    let rc: Vec<usize> = vec![gen::F_RC1, gen::F_RC2, gen::F_RC3, gen::F_RC4, gen::F_OPT];
+    let rsizes: Vec<usize> = rc.iter().map(|f| factors[*f].levels as usize).collect();
+    let rtotal: usize = rsizes.iter().product();
+    let mut base2 = bases[0].clone();
+    base2[gen::F_NTX] = 2;
+    let sw3 = par_sweep(
+        "conversions/two-tx-receipts",
+        &format!("blocks with two subject transactions: full cartesian product of the two receipt kinds of the first and of the second transaction and None/Some optional data ({rtotal} cases) on the rich base; the header (message receipt count, outbox root, block id) must be rebuilt from the per-transaction revert rule; same oracle"),
+        rtotal.div_ceil(chunk),
+        cli.threads,
+        |ci, sw| {
+            for idx in (ci * chunk)..((ci + 1) * chunk).min(rtotal) {
+                let mut l = base2.clone();
+                let mut r = idx;
+                for (k, f) in rc.iter().enumerate() {
+                    l[*f] = (r % rsizes[k]) as u8;
+                    r /= rsizes[k];
+                }
+                run_case(&factors, &l, sw, &worst);
+            }
+        },
+    );
+    run.add_sweep(sw3);
 
     let mut found = vec![];
     for (sig, (levels, _)) in worst.0.into_inner().unwrap() {
